@@ -20,8 +20,9 @@ import (
 // One case = one World (local server + client feature of one feature type T, NodeManagement, three
 // identically numbered peers) in one prior state, one sending peer, and the request matrix
 // classifier(6) x function(all of T / all nodeManagement functions / 2 foreign) x ack x destination
-// {nm, server, client, unknown}. Thorough walks every cell, quick a seeded tenth plus the full
-// NodeManagement row. After each injection (handling is synchronous) the complete outbound trace of
+// {nm, server, client, special (a special-role feature that is not NodeManagement), unknown}; requests
+// without ack carry an explicit "ackRequest": false in a seeded half of the cells. Both tiers walk
+// every cell. After each injection (handling is synchronous) the complete outbound trace of
 // all three connections is compared with the table written from the statement (DESIGN.md, C01).
 
 func init() {
@@ -29,7 +30,7 @@ func init() {
 	rig.Register(&rig.Check{
 		ID:    "C01",
 		Floor: 40,
-		Rule: "case = (feature type T, prior state pristine|after a random prefix of subscribes, binds and data updates, sending peer 0..2); its cells are the request matrix classifier x function x ack x destination kind, " +
+		Rule: "case = (feature type T, prior state pristine|after a random prefix of subscribes, binds and data updates, sending peer 0..2); its cells are the request matrix classifier x function x ack (requested, omitted, explicitly false) x destination kind (NodeManagement, server, client, a special-role data feature, unknown), " +
 			"enumerated completely in every case of both tiers (quick: two rounds over all feature types, prior states and senders, the second sending from the nested entity [1,1]; thorough: eight rounds with fresh prefixes and payloads). A case is non-trivial if at least one reply, one success result and one error result were observed and judged; " +
 			"distinct = distinct (T, prior state, sender, set of response classes seen).",
 		Assumptions: []string{
@@ -70,6 +71,7 @@ type c01World struct {
 	T        model.FeatureTypeType
 	fns      []rig.FnInfo
 	srv, cli api.FeatureLocalInterface
+	spc      api.FeatureLocalInterface // a feature of role "special" that is not NodeManagement
 	writable map[model.FunctionType]bool
 	subs     map[string]bool   // "peer|server" reference subscription registry
 	binds    map[string]string // server -> peer|client
@@ -90,6 +92,10 @@ func newC01World(c *rig.Ctx, T model.FeatureTypeType) *c01World {
 		cw.writable[f.Fn] = wr
 	}
 	cw.cli = e.GetOrAddFeature(T, model.RoleTypeClient) // [1]/2
+	cw.spc = e.GetOrAddFeature(T, model.RoleTypeSpecial) // [1]/3
+	for i, f := range cw.fns {
+		cw.spc.AddFunctionType(f.Fn, true, i%2 == 0)
+	}
 	for i := 0; i < 3; i++ {
 		p := cw.w.AddPeer(i)
 		p.Ctr = uint64(i+1) * 100000
@@ -101,16 +107,17 @@ func newC01World(c *rig.Ctx, T model.FeatureTypeType) *c01World {
 }
 
 type c01Cell struct {
-	dest  string // nm | server | client | unknown
+	dest  string // nm | server | client | special | unknown
 	fn    rig.FnInfo
 	cl    model.CmdClassifierType
 	ack   bool
+	ackf  bool // without ack: the header carries an explicit "ackRequest": false instead of omitting the element
 	gen   bool // generated payload instead of an empty one
 	nodev bool // the device part of the destination address is omitted (legal; it defaults to the recipient)
 }
 
 func (x c01Cell) String() string {
-	return fmt.Sprintf("%s %s %s ack=%v gen=%v nodev=%v", x.dest, x.cl, x.fn.Fn, x.ack, x.gen, x.nodev)
+	return fmt.Sprintf("%s %s %s ack=%v explicitFalse=%v gen=%v nodev=%v", x.dest, x.cl, x.fn.Fn, x.ack, x.ackf, x.gen, x.nodev)
 }
 
 var c01Classifiers = []model.CmdClassifierType{model.CmdClassifierTypeRead, model.CmdClassifierTypeReply, model.CmdClassifierTypeNotify,
@@ -134,7 +141,7 @@ func c01Cells(cw *c01World) []c01Cell {
 		foreign = fs[:2]
 	}
 	result := rig.FnInfo{Fn: "RESULT"}
-	for _, dest := range []string{"nm", "server", "client", "unknown"} {
+	for _, dest := range []string{"nm", "server", "client", "special", "unknown"} {
 		fns := cw.fns
 		if dest == "nm" {
 			fns = nmFns
@@ -195,6 +202,7 @@ func c01Case(c *rig.Ctx) {
 			default:
 				f := cw.fns[r.Intn(len(cw.fns))]
 				cw.srv.SetData(f.Fn, rig.GenVal(r, reflect.PtrTo(f.T), 0).Interface())
+				cw.spc.SetData(f.Fn, rig.GenVal(r, reflect.PtrTo(f.T), 0).Interface())
 			}
 		}
 		for _, p := range w.Peers {
@@ -208,6 +216,7 @@ func c01Case(c *rig.Ctx) {
 	var trace []string
 	p := w.Peers[sender]
 	for ci, cell := range cells {
+		cell.ackf = !cell.ack && r.Intn(2) == 0
 		cell.gen = r.Intn(2) == 0 && cell.cl != model.CmdClassifierTypeRead && cell.cl != model.CmdClassifierTypeResult && cell.dest != "nm"
 		var src, dst *model.FeatureAddressType
 		var destFeat api.FeatureLocalInterface
@@ -218,6 +227,8 @@ func c01Case(c *rig.Ctx) {
 			src, dst, destFeat = peerClient(p), srvAddr, cw.srv
 		case "client":
 			src, dst, destFeat = peerServer(p), cliAddr, cw.cli
+		case "special":
+			src, dst, destFeat = peerClient(p), cw.spc.Address(), cw.spc
 		case "unknown":
 			src, dst = peerClient(p), rig.FA(rig.LocalAddr, []uint{1}, 9)
 		}
@@ -310,6 +321,8 @@ func c01Case(c *rig.Ctx) {
 				class, want = "read-server->reply", []string{oneReply}
 			case cell.cl == model.CmdClassifierTypeRead && cell.dest == "server":
 				class, want = "read-foreign-function->error", []string{oneErr}
+			case cell.cl == model.CmdClassifierTypeRead && cell.dest == "special" && inT:
+				class, want = "read-special->reply", []string{oneReply}
 			case cell.cl == model.CmdClassifierTypeRead && cell.dest == "nm" && c01NMReadable(fn):
 				class, want = "read-nodemanagement->reply", []string{oneReply}
 			case cell.cl == model.CmdClassifierTypeRead:
@@ -341,6 +354,7 @@ func c01Case(c *rig.Ctx) {
 			nd.Device = nil
 			dst = &nd
 		}
+		p.AckFalse = cell.ackf
 		mc := p.Send(cell.cl, src, dst, cell.ack, ref, cmd)
 		c.Events(1)
 		id := fmt.Sprintf("T=%s prefixed=%v peer=%d srcEntity=%v :: %s", T, prefixed, sender, srcEnt, cell)
@@ -419,7 +433,7 @@ func c01Case(c *rig.Ctx) {
 				}
 			}
 		}
-		if class == "read-server->reply" && res.Replies == 1 {
+		if (class == "read-server->reply" || class == "read-special->reply") && res.Replies == 1 {
 			for _, d := range res.All {
 				if d.Header.CmdClassifier == nil || *d.Header.CmdClassifier != model.CmdClassifierTypeReply || len(d.Payload.Cmd) != 1 {
 					continue
